@@ -451,6 +451,9 @@ def apply(state, name, desc, other=None):
                 T["groups"].add(gid)
         T["metabolites"] |= {old, new}
         return Result(s, T)
+    if name.startswith("detached."):
+        # edits of a reaction that is not part of the model: the model is not concerned
+        return Result(s, T)
     if name == "manipulation.rename_genes":
         mp = {k: v for k, v in d["map"].items() if k in s["genes"]}
         for old, new in mp.items():
@@ -528,6 +531,12 @@ def apply(state, name, desc, other=None):
         r["bounds"], r["stoich"] = bounds, st
         for mid in st:
             if mid not in s["metabolites"]:
+                s["metabolites"][mid] = {"compartment": None}
+                T["metabolites"].add(mid)
+        # "unknown ids create metabolites": every term is looked up, so an unknown id whose
+        # terms cancel is created all the same (it joins the model, not the reaction)
+        for mid in re.findall(r"[^\s+()<>=-][^\s+]*", re.sub(r"<?[-=]+>?", " ", d["string"])):
+            if not re.fullmatch(r"[0-9.eE+-]+|\([0-9.eE+-]+\)", mid) and mid not in s["metabolites"] and mid.lower() != "nothing":
                 s["metabolites"][mid] = {"compartment": None}
                 T["metabolites"].add(mid)
         return Result(s, T, unspecified={"new-metabolite-attributes"})
